@@ -37,6 +37,15 @@ func (r *failReader) Read(p []byte) (int, error) {
 	if e == nil {
 		e = errInjR
 	}
+	if r.fail > len(r.data) {
+		// healthy: the data, then io.EOF
+		if r.pos >= len(r.data) {
+			return 0, io.EOF
+		}
+		n := copy(p, r.data[r.pos:])
+		r.pos += n
+		return n, nil
+	}
 	if r.pos >= r.fail && !(r.failed && r.mode != "") {
 		r.failed = true
 		return 0, e
@@ -135,9 +144,27 @@ func c14Call(r c14Replay, rd *failReader, w *failWriter) (err error, pan string)
 		switch r.Route {
 		case "md":
 			err = gtree.OutputFromMarkdown(w, rd, opts...)
+		case "md-alias":
+			err = gtree.Output(w, rd, opts...)
+		case "md-walk":
+			// the other entry points that read Markdown: a reader failure is returned by them as well
+			err = gtree.WalkFromMarkdown(rd, func(wn *gtree.WalkerNode) error { _, e := io.WriteString(w, wn.Row()+"\n"); return e }, opts...)
+		case "md-mkdir-dry":
+			old := color.Output
+			color.Output = w
+			err = gtree.MkdirFromMarkdown(rd, gtree.WithDryRun(), gtree.WithFileExtensions([]string{"b"}))
+			color.Output = old
+		case "md-verify":
+			err = gtree.VerifyFromMarkdown(rd, gtree.WithTargetDir("/nonexistent/never/used"))
+			if err != nil && strings.HasPrefix(err.Error(), "Required paths does not exist") {
+				err = nil // the document was read to its end and verified (nothing exists there): not an I/O matter
+			}
 		case "root":
 			sp := model.ParseSpec(r.Doc)
 			err = gtree.OutputFromRoot(w, sut.BuildRoot(sp.Forest[0]), opts...)
+		case "root-alias":
+			sp := model.ParseSpec(r.Doc)
+			err = gtree.OutputProgrammably(w, sut.BuildRoot(sp.Forest[0]), opts...)
 		case "root-mkdir-dry":
 			sp := model.ParseSpec(r.Doc)
 			old := color.Output
@@ -192,11 +219,14 @@ func c14Case(c *rep.Ctx, r c14Replay, full string) {
 
 func c14CallEOF(r c14Replay, w *failWriter) (error, string) {
 	var err error
-	opts := c14Opts(r.Mode)
 	pan := sut.Guard(func() {
-		switch r.Route {
-		case "md":
-			err = gtree.OutputFromMarkdown(w, strings.NewReader(r.Doc), opts...)
+		switch {
+		case strings.HasPrefix(r.Route, "md"):
+			e, p := c14Call(r, &failReader{data: r.Doc, fail: len(r.Doc) + 1}, w)
+			err = e
+			if p != "" {
+				panic(p)
+			}
 		default:
 			e, p := c14Call(r, nil, w)
 			err = e
@@ -273,6 +303,15 @@ func init() {
 				if single && mode != "text-noiter" {
 					routes = append(routes, "root")
 				}
+				if len(doc) <= 16 {
+					routes = append(routes, "md-alias")
+					if single && mode != "text-noiter" {
+						routes = append(routes, "root-alias")
+					}
+					if mode == "text" {
+						routes = append(routes, "md-walk", "md-mkdir-dry", "md-verify")
+					}
+				}
 				for _, route := range routes {
 					if !c.Take() {
 						continue
@@ -310,7 +349,7 @@ func init() {
 							}
 						}
 					}
-					if route == "md" {
+					if strings.HasPrefix(route, "md") {
 						for i := 0; i < len(doc); i++ {
 							r := base
 							r.Reader = i
